@@ -118,6 +118,26 @@ KvConvert ==  \* kv.convert(cls): same knots in another number class; int only i
          ok == a.cls # "int" \/ \A i \in DOMAIN U : U[i][2] = 1 IN
      Step([name |-> "KvConvert"] @@ a, heap, Ret(OkOrVE(ok), <<>>))
 
+(* kv + nodes, kv - nodes, kv + s, kv - s, kv * s, s * kv, kv / s: a NEW vector with the value the in-place form   *)
+(* would give; the receiver keeps its value whatever the outcome                                                 *)
+KvValueOp ==
+  \E a \in ArgsOf("KvValueOp", heap, depth) :
+     LET U == heap[a.obj].U
+         r == CASE a.op = "add_nodes" -> InsertKV(U, a.nodes)
+                [] a.op = "sub_nodes" -> RemoveKV(U, a.nodes)
+                [] a.op = "add"       -> ShiftKV(U, a.by)
+                [] a.op = "sub"       -> ShiftKV(U, Neg(a.by))
+                [] a.op \in {"mul", "rmul"} -> ScaleKV(U, a.by)
+                [] a.op = "div"       -> IF IsZero(a.by) THEN Refuse(U) ELSE ScaleKV(U, Inv(a.by))
+     IN Step([name |-> "KvValueOp"] @@ a, heap,
+             Ret(IF r.ok THEN "ok" ELSE IF a.op \in {"add_nodes", "sub_nodes"} THEN "ValueError" ELSE "Error",
+                 IF r.ok THEN r.kv ELSE <<>>))
+
+(* kv == x, kv != x: by value; x may be a vector, a plain list, or something that is no knot vector at all (False) *)
+KvEq ==
+  \E a \in ArgsOf("KvEq", heap, depth) :
+     Step([name |-> "KvEq"] @@ a, heap, Ret("ok", heap[a.obj].U = a.seq))
+
 KvCopy ==     \* copy is equal and independent (the harness mutates the copy)
   \E a \in ArgsOf("KvCopy", heap, depth) :
      Step([name |-> "KvCopy"] @@ a, heap, Ret("ok", heap[a.obj].U))
@@ -345,14 +365,17 @@ IntegrateFn ==
      Step([name |-> "IntegrateFn"] @@ a, heap,
           Ret("ok", Div(Sub(RPow(Umax(U), a.k + 1), RPow(Umin(U), a.k + 1)), R(a.k + 1))))
 
-(* Integrate.lenght of a polyline: ret = squared lengths of the segments (the harness adds the roots) *)
+(* Integrate.lenght(C, g, method, nnodes) of a polyline with the weight g(u) = u^k: the speed is constant on every   *)
+(* span, so the value is  sum_i |segment_i| * (mean of u^k over span i) * ... ; ret = <<squared length of segment i, *)
+(* integral of u^k over span i divided by the span length>> (the harness takes the roots: lengths are irrational)     *)
 GeoLength ==
   \E a \in ArgsOf("GeoLength", heap, depth) :
      LET c == a.curve ks == Knots(c.U) IN
      /\ heap' = heap /\ act' = [name |-> "GeoLength"] @@ a /\ depth' = depth + 1 /\ UNCHANGED memo
      /\ ret' = Ret("ok", [i \in 1..(Len(ks) - 1) |->
-                   Dist2(PX(c, ks[i]), PY(c, ks[i]),
-                         LeftLimit(Poly(c.U, c.X), ks[i + 1]), LeftLimit(Poly(c.U, c.Y), ks[i + 1]))])
+                   <<Dist2(PX(c, ks[i]), PY(c, ks[i]),
+                           LeftLimit(Poly(c.U, c.X), ks[i + 1]), LeftLimit(Poly(c.U, c.Y), ks[i + 1])),
+                     Div(Sub(RPow(ks[i + 1], a.k + 1), RPow(ks[i], a.k + 1)), Mul(R(a.k + 1), Sub(ks[i + 1], ks[i])))>>])
 
 (* memo tables of quadrature rules.  fn in {"nodes_closed","nodes_open","nodes_cheby","nodes_gauss", *)
 (* "w_closed","w_open","w_cheby","w_gauss"}; the tables only grow, answers depend on (fn, n) only *)
@@ -433,7 +456,7 @@ GeoIntersect ==
 -----------------------------------------------------------------------------
 Next == /\ depth < MaxDepth
         /\ \/ KvNew \/ KvInsert \/ KvRemove \/ KvShift \/ KvScale \/ KvNormalize
-           \/ KvSetDegree \/ KvIOr \/ KvIAnd \/ KvOr \/ KvAnd \/ KvSplit \/ KvCopy
+           \/ KvSetDegree \/ KvIOr \/ KvIAnd \/ KvOr \/ KvAnd \/ KvSplit \/ KvCopy \/ KvValueOp \/ KvEq
            \/ CvEval \/ FnBasis \/ CvKnotInsert \/ CvDegreeIncrease \/ CvSplit
            \/ CvKnotRemove \/ CvDegreeDecrease \/ CvClean \/ CvJoin \/ CvArith \/ CvScalar
            \/ CvEq \/ CvCopy \/ CvFraction \/ CvSetCtrlpoints \/ CvSetWeights \/ CvSetKnotvector \/ CvSplitTake \/ KvConvert
